@@ -292,6 +292,24 @@ func genFaulty(t *rapid.T) pairsim.Scenario {
 			op.Up, op.Down = size("up", cs), size("down", ss)
 		case "get":
 			op.Down = size("down", ss)
+			// a download may be abandoned half-way (cancelled by the caller), and a later download may
+			// re-use the token of an earlier one that has ended
+			if rapid.IntRange(0, 4).Draw(t, "cancelget") == 0 {
+				op.CancelMs = rapid.SampledFrom([]int{3, 8, 30}).Draw(t, "cancelms")
+				op.Async = false
+			}
+			var earlier []int
+			for j, o := range sc.Ops {
+				if o.Kind == "get" && !o.Async {
+					earlier = append(earlier, j)
+				}
+			}
+			if len(earlier) > 0 && rapid.IntRange(0, 2).Draw(t, "tokref") == 0 {
+				op.TokRef = earlier[rapid.IntRange(0, len(earlier)-1).Draw(t, "tokrefwhich")] + 1
+				op.Async = false
+				// the token is taken again once nothing of the earlier exchange is on its way any more
+				sc.Ops = append(sc.Ops, pairsim.Op{Kind: "sleep", Ms: 6*sc.Link.LatencyMs + 20})
+			}
 		case "write":
 			op.Up = size("up", cs)
 			op.Con = rapid.Bool().Draw(t, "con")
@@ -302,6 +320,22 @@ func genFaulty(t *rapid.T) pairsim.Scenario {
 			op.NotifLen = size("nlen", ss)
 		}
 		sc.Ops = append(sc.Ops, op)
+	}
+	// A caller that re-uses a token accepts that a late copy of an answer to the earlier exchange
+	// matches the later one (RFC 7252 5.3.1 leaves that to the client); with a re-used token the
+	// network therefore only loses datagrams and adds foreign-token ones, it keeps no old copies.
+	for _, op := range sc.Ops {
+		if op.TokRef == 0 {
+			continue
+		}
+		for _, fs := range [][]memnet.Fault{sc.Link.FaultsAB, sc.Link.FaultsBA} {
+			for i := range fs {
+				if fs[i].Kind != "drop" && fs[i].Kind != "alien" {
+					fs[i].Kind = "drop"
+				}
+			}
+		}
+		break
 	}
 	return sc
 }
